@@ -45,7 +45,10 @@ shares memory with library state), the twelfth to two cooperating sites that are
 alone and to rarely used options and secondary entry points, the thirteenth was told to make
 the change hard to find by random testing (a trigger below one in a million per random session
 that structured real-world data produces readily), the fourteenth to break the property from a
-distance (a dependency two or three hops away from the property's home files).
+distance (a dependency two or three hops away from the property's home files), the fifteenth to
+leave the main route alone and break the property on an alternative route the library also
+offers (a second entry point, a lower-level API, an in-memory transport, a rarely passed option,
+the second use of an object).
 All %d changes were
 confirmed by `bin/confirm-seeded` (patch applies to HEAD; `go build ./...`; `go test` of every
 package except the root passes; the demonstration fails with the change and passes without it) and
@@ -100,6 +103,14 @@ that runs the whole stack - and four after an extension: the default `env.Config
 which no world had ever used; `Conn`s made by the library's own network constructor;
 `runtime.AddCleanup`; arrays of arrays. One (C04-n) is caught by C14's check, whose property it
 breaks first.
+The fifteenth wave (alternative routes): ten caught at once - eight of them are "the second use
+of an object" or "two sessions at once", which the worlds have generated since the sixth and the
+eighth wave - and four after an extension that put a route under the checks that no world had
+taken: reading the byte counters through `IOStats.Add`, `circuit.Parse(path)`, a circuit value
+built as a literal, Go-value inputs shorter than their array. A coverage measurement made just
+before the wave (section 9) had pointed at two of the four routes (`IOStats.Add` never called; `circuit.Parse` reached only
+through the compiler's `native()` with Bristol files); it had also put the library's in-memory pipes and the step-by-step OT transfer
+objects under the checks, which no agent of this wave happened to choose.
 
 ''' % (ordn[len(waves) - 1].capitalize(), len(rows), len(own), len(missed), len(rows), per_wave, ', '.join(m['name'] for m in notcaught))
 out += '''| change | property | what was changed | needs | clause that fires | missed at first? |
